@@ -67,6 +67,11 @@ structure Synced (s : State) : Prop where
   /-- well-formedness of the dictionaries -/
   nodupOrder : s.font.order.Nodup
 
+/-- the layer is bound to an open glyph set of the font's current reader that lists what is on disk
+now, and (zip) that reader has the archive open as it is now -/
+def Bound (s : State) (ln : String) : Prop :=
+  (∃ l, getLayer s ln = some l ∧ l.gs = some ⟨ln, glifNames s.disk ln, true⟩) ∧ (s.zip = true → s.reader = s.disk)
+
 /-- the report that names nothing: loaded top-level objects unchanged, everything else empty -/
 def quietReport (s : State) : Report :=
   { parts := allParts.map fun p => (p, (getPart s p).map fun _ => false) }
